@@ -509,6 +509,9 @@ func main() {
 		// a dead worker is a verdict only for the properties whose statement covers crashes / memory exhaustion
 		run.Report(*prop+"|worker-died", c, map[string]any{"crash": c})
 	}
+	if *prop == "C04" && states == 0 && len(extra) == 0 {
+		vlib.Fatal("C04: no schema-evolution case was compiled into the workers (the evolution batch failed to generate or type-check: see C12); nothing could be checked")
+	}
 	if evals == 0 {
 		evals = states
 	}
